@@ -56,6 +56,8 @@ pure voted(k Int) Int = asint(cres("Vote", k))
 
 func Cheque(id, user, amount, lockAcc)
   ensures [C17] notaryDisabled(old(store)) ==> xcalls("Vote").len == old(xcalls("Vote")).len + 1
+  // a decision that fires clears its ballot (so it takes effect exactly once)
+  ensures [C17,C19] notaryDisabled(old(store)) ==> ((notifs.len == old(notifs).len + 1) == (xcalls("RemoveVotes").len == old(xcalls("RemoveVotes")).len + 1))
   ensures [C17] notaryDisabled(old(store)) && old(store).has("alphabet") ==>
         ((notifs.len == old(notifs).len + 1) == (voted(old(xcalls("Vote")).len) >= thr(old(store))))
   // pays out exactly the cheque amount, at most once per invocation, together with its notification
@@ -104,6 +106,8 @@ func Withdraw(user, amount)
 
 func SetConfig(id, key, val)
   ensures [C17] notaryDisabled(old(store)) ==> xcalls("Vote").len == old(xcalls("Vote")).len + 1
+  // a decision that fires clears its ballot (so it takes effect exactly once)
+  ensures [C17,C19] notaryDisabled(old(store)) ==> ((notifs.len == old(notifs).len + 1) == (xcalls("RemoveVotes").len == old(xcalls("RemoveVotes")).len + 1))
   ensures [C17] notaryDisabled(old(store)) && old(store).has("alphabet") ==>
         ((notifs.len == old(notifs).len + 1) == (voted(old(xcalls("Vote")).len) >= thr(old(store))))
   ensures [C17] !notaryDisabled(old(store)) ==> W(alphabet())
@@ -112,12 +116,15 @@ func SetConfig(id, key, val)
 
 func AlphabetUpdate(id, args)
   ensures [C17] notaryDisabled(old(store)) ==> xcalls("Vote").len == old(xcalls("Vote")).len + 1
+  // a decision that fires clears its ballot (so it takes effect exactly once)
+  ensures [C17,C19] notaryDisabled(old(store)) ==> ((notifs.len == old(notifs).len + 1) == (xcalls("RemoveVotes").len == old(xcalls("RemoveVotes")).len + 1))
   ensures [C17] notaryDisabled(old(store)) && old(store).has("alphabet") ==>
         ((notifs.len == old(notifs).len + 1) == (voted(old(xcalls("Vote")).len) >= thr(old(store))))
   ensures [C17] !notaryDisabled(old(store)) ==> W(alphabet())
   ensures [C17] forall k Bytes {store.opt(k)} :: k != "ballots" && k != "alphabet" ==> store.opt(k) == old(store).opt(k)
   loop 0
     invariant store == old(store) && notifs == old(notifs) && xcalls == old(xcalls) && xcalls("Vote").len == old(xcalls("Vote")).len
+    invariant xcalls("RemoveVotes").len == old(xcalls("RemoveVotes")).len
 
 // removal of a candidate: by the candidate itself at once, otherwise by the Alphabet (vote-collected without Notary)
 func InnerRingCandidateRemove(key)
